@@ -39,7 +39,9 @@ def lattice(K, seed=0):
     return [NormalDist().inv_cdf((i + o) / K) for i, o in enumerate(offs)]
 
 
-DEFECTS = ["none", "scale1.01", "scale0.99", "sign", "entry1pct", "transpose", "missing-reduction", "opaque-at-order-2", "conj"]
+DEFECTS = ["none", "scale1.01", "scale0.99", "sign", "entry1pct", "transpose", "missing-reduction", "opaque-at-order-2", "conj",
+           "conj-cotangent", "drop-imag-cotangent",            # complex argument: the rule mistreats the incoming (co)tangent, not its own factor
+           "fwd-defect-inside-vjp-rule", "rev-defect-inside-jvp-rule"]   # only the mixed second-order combinations can see these
 KINDS = ["scalar", "array", "matrixfn", "complex", "container", "broadcast", "linearfn"]
 A = onp.array([[1.3, -0.4], [0.8, 2.1]])
 
@@ -80,8 +82,23 @@ def build(kind, defect):
             return np.cos(x) * x + np.sin(x)
 
         cj = (lambda v: np.conj(v)) if defect == "conj" else (lambda v: v)      # a misplaced conjugate on a holomorphic rule
-        ext.defvjp(prim, lambda ans, x: lambda g: entry(s * g * cj(d(x)) + shift * g, g))
-        ext.defjvp(prim, lambda g, ans, x: entry(s * g * cj(d(x)) + shift * g, g))
+        gq = {"conj-cotangent": np.conj, "drop-imag-cotangent": lambda g: np.real(g) + 0j}.get(defect, lambda g: g)
+        d_vjp = d_jvp = d
+        if defect in ("fwd-defect-inside-vjp-rule", "rev-defect-inside-jvp-rule"):
+            # the derivative factor is computed by a helper primitive whose own rule is wrong in ONE mode only
+            @ext.primitive
+            def helper(x):
+                return onp.cos(x) * x + onp.sin(x)
+            d2 = lambda x: 2.0 * np.cos(x) - x * np.sin(x)
+            bad_fwd = defect == "fwd-defect-inside-vjp-rule"
+            ext.defvjp(helper, lambda ans, x: lambda g: (1.0 if bad_fwd else 1.5) * g * d2(x))
+            ext.defjvp(helper, lambda g, ans, x: (1.5 if bad_fwd else 1.0) * g * d2(x))
+            if bad_fwd:
+                d_vjp = helper
+            else:
+                d_jvp = helper
+        ext.defvjp(prim, lambda ans, x: lambda g: entry(s * gq(g) * cj(d_vjp(x)) + shift * g, g))
+        ext.defjvp(prim, lambda g, ans, x: entry(s * gq(g) * cj(d_jvp(x)) + shift * g, g))
         if kind == "scalar":
             return prim, 1.3
         if kind == "array":
@@ -138,8 +155,10 @@ def applicable(kind, defect):
         return kind in ("array", "matrixfn", "container")
     if defect == "transpose":
         return kind in ("matrixfn", "linearfn")
-    if defect == "conj":
+    if defect in ("conj", "conj-cotangent", "drop-imag-cotangent"):
         return kind == "complex"
+    if defect in ("fwd-defect-inside-vjp-rule", "rev-defect-inside-jvp-rule"):
+        return kind == "scalar"
     if defect == "missing-reduction":
         return kind == "broadcast"
     if defect == "opaque-at-order-2":
@@ -183,7 +202,7 @@ def run_check(kind, defect, mode, order, ch, K, seed=0):
         with warnings.catch_warnings():
             warnings.simplefilter("ignore")
             try:
-                L["tu"].check_grads(f, modes=[mode], order=order)(x)
+                L["tu"].check_grads(f, modes=(["fwd", "rev"] if mode == "both" else [mode]), order=order)(x)
                 return "accepted", d.n
             except AssertionError:
                 return "rejected", d.n
@@ -210,10 +229,16 @@ def lattice_factory(quick, seed):
         defect = ch.choose("defect", DEFECTS)
         if not applicable(kind, defect):
             raise Skip("defect does not apply to this argument kind")
-        mode = ch.choose("mode", ["rev", "fwd"])
+        mode = ch.choose("mode", ["rev", "fwd", "both"])
         order = ch.choose("order", [1, 2])
         if defect == "opaque-at-order-2" and order == 1:
             raise Skip("this defect is only visible at order 2")
+        mixed = defect in ("fwd-defect-inside-vjp-rule", "rev-defect-inside-jvp-rule")
+        both_ok = mode == "both" and order == 2 and kind == "scalar" and (mixed or defect == "sign" or (defect == "none" and not quick))
+        if (mode == "both" and not both_ok) or (mode != "both" and mixed):
+            # both modes together: the default call check_grads(f)(x); walked for the scalar kind at order 2 (15 draws), where the
+            # four second-order combinations rr, rf, fr, ff must all be examined
+            raise Skip("mixed-mode configuration not walked")
         D = depth_of(kind, defect, mode, order)
         K = 2
         while (K + 2) ** D <= cap:
@@ -282,7 +307,7 @@ def replay(ctx, v):
         ch, out = run_leaf(h, c)
         return None if isinstance(out, Skip) else judge(ch, out)["v"]
     kind, defect, mode, order = c["config"].split("|")
-    prefix = [KINDS.index(kind), DEFECTS.index(defect), ["rev", "fwd"].index(mode), [1, 2].index(int(order))]
+    prefix = [KINDS.index(kind), DEFECTS.index(defect), ["rev", "fwd", "both"].index(mode), [1, 2].index(int(order))]
     acc = tot = 0.0
     for ch, out in leaves(h, prefix):
         if isinstance(out, Skip):
